@@ -218,9 +218,25 @@ pub fn run_all() -> (Vec<Problem>, u64) {
             }
         }
     }
+    for (k, op, refless) in manyrefs_cases() {
+        n += 1;
+        if let Err(what) = manyrefs_case(k, op, refless) {
+            let opn = ["clone_within(A)", "clone_into_external(A)", "clone_multiple_into_external(A,F)", "clone_multiple_into_external(F,A)", "clone_within(B)", "clone_into_external(B)"][op as usize];
+            let class = if k <= 8 { "k<=8" } else if k <= 16 { "k<=16" } else if k <= 40 { "k<=40" } else { "k>40" };
+            out.push((
+                format!("domprobe|many-refs|{}|{}", opn, class),
+                format!("{} with {} properties on every instance (strings only on the carriers of mask {:#07b} over A,B,C,E,F): {}", opn, k, refless, what),
+                serde_json::json!({"domprobe": {"kind": "many-refs", "k": k, "op": op, "refless": refless}}),
+                "C11",
+            ));
+        }
+    }
     let (odd, odd_n) = odd_uniqueid_all();
     out.extend(odd);
     n += odd_n;
+    let (fr, fr_n) = from_raw_all();
+    out.extend(fr);
+    n += fr_n;
     // keep one problem per key
     out.sort_by(|a, b| a.0.cmp(&b.0));
     out.dedup_by(|a, b| a.0 == b.0);
@@ -232,6 +248,19 @@ pub fn replay(case: &serde_json::Value) -> String {
     match c["kind"].as_str() {
         Some("wide") => {
             let v = wide_case(c["width"].as_u64().unwrap_or(1) as usize, c["pos"].as_u64().unwrap_or(0) as usize, c["op"].as_u64().unwrap_or(0) as u8);
+            if v.is_empty() {
+                "ok".into()
+            } else {
+                v.into_iter().map(|x| x.0).collect::<Vec<_>>().join("; ")
+            }
+        }
+        Some("many-refs") => match manyrefs_case(c["k"].as_u64().unwrap_or(0) as usize, c["op"].as_u64().unwrap_or(0) as u8, c["refless"].as_u64().unwrap_or(0) as u8) {
+            Ok(()) => "ok".into(),
+            Err(w) => w,
+        },
+        Some("from-raw") => {
+            let parents: Vec<Option<usize>> = c["parents"].as_array().map(|a| a.iter().map(|v| v.as_u64().map(|x| x as usize)).collect()).unwrap_or_default();
+            let v = from_raw_case(&parents, c["new_root"].as_u64().unwrap_or(0) as usize, c["follow"].as_u64().unwrap_or(0) as u8);
             if v.is_empty() {
                 "ok".into()
             } else {
@@ -252,6 +281,300 @@ pub fn replay(case: &serde_json::Value) -> String {
             Err(w) => w,
         },
     }
+}
+
+// ---------------------------------------------------------------------------
+// Instances carrying many Ref properties at once (0..=40, 64, 65, 100, 257 per instance): every
+// rewrite case of C11 sits in one property map, in every position of it, for every clone entry
+// point.  The expectation is computed per property from the statement of C11.
+
+/// one many-Refs case; `k` properties on each of five instances
+pub fn manyrefs_case(k: usize, op: u8, refless: u8) -> Result<(), String> {
+    let mut src = WeakDom::new(InstanceBuilder::new("DataModel"));
+    let mut dest = WeakDom::new(InstanceBuilder::new("DataModel"));
+    let x = dest.insert(dest.root_ref(), InstanceBuilder::new("Folder").with_name("X"));
+    let root = src.root_ref();
+    let a = src.insert(root, InstanceBuilder::new("Model").with_name("A"));
+    let b = src.insert(a, InstanceBuilder::new("Part").with_name("B"));
+    let c = src.insert(a, InstanceBuilder::new("Part").with_name("C"));
+    let e = src.insert(b, InstanceBuilder::new("Folder").with_name("E"));
+    let d = src.insert(root, InstanceBuilder::new("Folder").with_name("D"));
+    let f = src.insert(root, InstanceBuilder::new("Folder").with_name("F"));
+    let dangling = Ref::new();
+    let carriers = [a, b, c, e, f];
+    let names = ["PrimaryPart", "Part0", "Part1", "Adornee", "Value", "Attachment0", "Attachment1", "SoundGroup"];
+    let pname = |i: usize| if i < names.len() { names[i].to_owned() } else { format!("P{:03}", i) };
+    // target kinds: 0 A, 1 B, 2 E, 3 D, 4 null, 5 dangling, 6 F, 7 X (exists only in dest), 8 not a Ref
+    // carriers named by `refless` hold strings only (same property names, same count)
+    let kind_of = |ci: usize, i: usize| if refless >> ci & 1 == 1 { 8 } else { (i + 2 * ci) % 9 };
+    let target = |kind: usize| match kind {
+        0 => a,
+        1 => b,
+        2 => e,
+        3 => d,
+        4 => Ref::none(),
+        5 => dangling,
+        6 => f,
+        _ => x,
+    };
+    for (ci, r) in carriers.iter().enumerate() {
+        let inst = src.get_by_ref_mut(*r).ok_or("a carrier vanished")?;
+        for i in 0..k {
+            let kind = kind_of(ci, i);
+            let v = if kind == 8 { Variant::String(format!("s{}", i)) } else { Variant::Ref(target(kind)) };
+            inst.properties.insert(pname(i).as_str().into(), v);
+        }
+    }
+    let before: Vec<Vec<(String, Variant)>> = carriers
+        .iter()
+        .map(|r| {
+            let mut v: Vec<(String, Variant)> = src.get_by_ref(*r).map(|i| i.properties.iter().map(|(k, v)| (k.to_string(), v.clone())).collect()).unwrap_or_default();
+            v.sort_by(|a, b| a.0.cmp(&b.0));
+            v
+        })
+        .collect();
+    let src_count = src.descendants().count();
+    // (operands, same-dom?)
+    let (operands, within): (Vec<Ref>, bool) = match op {
+        0 => (vec![a], true),
+        1 => (vec![a], false),
+        2 => (vec![a, f], false),
+        3 => (vec![f, a], false),
+        4 => (vec![b], true),
+        _ => (vec![b], false),
+    };
+    let res = crate::evidence::guarded(|| match op {
+        0 | 4 => vec![src.clone_within(operands[0])],
+        1 | 5 => vec![src.clone_into_external(operands[0], &mut dest)],
+        _ => src.clone_multiple_into_external(&operands, &mut dest),
+    });
+    let copies = match res {
+        Ok(c) => c,
+        Err((site, msg)) => return Err(format!("panicked at {}: {}", site, msg)),
+    };
+    if copies.len() != operands.len() {
+        return Err(format!("{} referents returned for {} operands", copies.len(), operands.len()));
+    }
+    // original -> copy, by walking both in step
+    let mut map: std::collections::HashMap<Ref, Ref> = std::collections::HashMap::new();
+    {
+        let ddom: &WeakDom = if within { &src } else { &dest };
+        let mut work: Vec<(Ref, Ref)> = operands.iter().copied().zip(copies.iter().copied()).collect();
+        while let Some((o, n)) = work.pop() {
+            let oi = src.get_by_ref(o).ok_or("an original vanished")?;
+            let ni = ddom.get_by_ref(n).ok_or_else(|| format!("the copy of {} cannot be looked up", oi.name))?;
+            if oi.name != ni.name || oi.class != ni.class {
+                return Err(format!("the copy of {} is named {} of class {}", oi.name, ni.name, ni.class));
+            }
+            if oi.children().len() != ni.children().len() {
+                return Err(format!("the copy of {} has {} children, the original {}", oi.name, ni.children().len(), oi.children().len()));
+            }
+            if n == o || (within && carriers.contains(&n)) {
+                return Err(format!("the copy of {} shares a referent with an original", oi.name));
+            }
+            map.insert(o, n);
+            work.extend(oi.children().iter().copied().zip(ni.children().iter().copied()));
+        }
+        for (o, n) in operands.iter().zip(&copies) {
+            let _ = o;
+            if ddom.get_by_ref(*n).map(|i| i.parent().is_some()).unwrap_or(true) {
+                return Err("a copied root has a parent".into());
+            }
+        }
+        for (ci, r) in carriers.iter().enumerate() {
+            let Some(n) = map.get(r) else { continue };
+            let ni = ddom.get_by_ref(*n).ok_or("copy vanished")?;
+            if ni.properties.len() != k {
+                return Err(format!("the copy of {} has {} properties, the original {}", ni.name, ni.properties.len(), k));
+            }
+            for i in 0..k {
+                let kind = kind_of(ci, i);
+                let got = ni.properties.get(&pname(i).as_str().into()).cloned();
+                let want = if kind == 8 {
+                    Variant::String(format!("s{}", i))
+                } else {
+                    let t = target(kind);
+                    let w = if let Some(m) = map.get(&t) {
+                        *m
+                    } else if t.is_some() && ddom.get_by_ref(t).is_some() {
+                        t
+                    } else {
+                        Ref::none()
+                    };
+                    Variant::Ref(w)
+                };
+                if got.as_ref() != Some(&want) {
+                    let kinds = ["the cloned root A", "the cloned B", "the cloned E", "D outside the cloned set", "null", "an instance that exists nowhere", "F", "X of the destination", "a string"];
+                    return Err(format!(
+                        "property #{} ({}) of the copy of {}, which pointed at {}: {} expected, got {}",
+                        i,
+                        pname(i),
+                        ni.name,
+                        kinds[kind],
+                        match &want {
+                            Variant::Ref(r) if r.is_none() => "null".to_owned(),
+                            Variant::Ref(r) if map.values().any(|m| m == r) => "the corresponding copy".to_owned(),
+                            Variant::Ref(_) => "the same instance (it exists in the destination)".to_owned(),
+                            _ => "the same string".to_owned(),
+                        },
+                        match &got {
+                            None => "nothing".to_owned(),
+                            Some(Variant::Ref(r)) if r.is_none() => "null".to_owned(),
+                            Some(Variant::Ref(r)) if map.values().any(|m| m == r) => "a copy".to_owned(),
+                            Some(Variant::Ref(r)) if *r == target(kind) => "the original target".to_owned(),
+                            Some(o) => format!("{:?}", o),
+                        }
+                    ));
+                }
+            }
+        }
+    }
+    // the source is untouched
+    for (ci, r) in carriers.iter().enumerate() {
+        let mut v: Vec<(String, Variant)> = src.get_by_ref(*r).map(|i| i.properties.iter().map(|(k, v)| (k.to_string(), v.clone())).collect()).unwrap_or_default();
+        v.sort_by(|a, b| a.0.cmp(&b.0));
+        if v != before[ci] {
+            return Err(format!("the properties of the original {} changed", ["A", "B", "C", "E", "F"][ci]));
+        }
+    }
+    // a parentless copy is not reachable from the root, so the count holds for clone_within too
+    if src.descendants().count() != src_count {
+        return Err("the source's tree gained or lost instances".into());
+    }
+    if !within {
+        match dest.get_by_ref(x) {
+            Some(i) if i.name == "X" && i.properties.is_empty() && i.parent() == dest.root_ref() => {}
+            _ => return Err("the destination's resident changed".into()),
+        }
+    }
+    well_formed(&src).map_err(|e| format!("source: {}", e))?;
+    well_formed(&dest).map_err(|e| format!("destination: {}", e))?;
+    Ok(())
+}
+
+pub fn manyrefs_cases() -> Vec<(usize, u8, u8)> {
+    let mut out = Vec::new();
+    for k in (0..=40usize).chain([64, 65, 100, 257]) {
+        for op in 0..6u8 {
+            for refless in 0..32u8 {
+                if k == 0 && refless != 0 {
+                    continue;
+                }
+                out.push((k, op, refless));
+            }
+        }
+    }
+    out
+}
+
+// ---------------------------------------------------------------------------
+// `from_raw` with a root other than the one `into_raw` returned (the crate's own from_raw test
+// does this): the constructor takes the map as it is.  Every forest shape of <= 4 nodes x every
+// choice of the new root x {nothing, insert under it, clone_within of it}: every instance keeps
+// its parent, child list and properties, so the two directions of the tree relation still agree
+// over the whole map (C09), and nothing but the named instance changes afterwards (C10).
+
+pub fn from_raw_case(parents: &[Option<usize>], new_root: usize, follow: u8) -> Vec<(String, &'static str)> {
+    let mut problems: Vec<(String, &'static str)> = Vec::new();
+    let mut dom = WeakDom::new(InstanceBuilder::new("DataModel").with_name("root"));
+    let mut known: Vec<(String, Ref)> = vec![("root".to_owned(), dom.root_ref())];
+    for (i, p) in parents.iter().enumerate() {
+        let parent = match p {
+            Some(k) => known[k + 1].1,
+            None => dom.root_ref(),
+        };
+        let mut b = InstanceBuilder::new("Folder").with_name(format!("n{}", i)).with_property("P", Variant::Int32(i as i32));
+        if i == 0 {
+            b = b.with_property("UniqueId", Variant::UniqueId(rbx_dom_weak::types::UniqueId::new(3, 9, 27)));
+        }
+        let r = dom.insert(parent, b);
+        known.push((format!("n{}", i), r));
+    }
+    let before = snapshot(&dom, &known);
+    let n_before = known.len();
+    let chosen = if new_root >= parents.len() { known[0].1 } else { known[new_root + 1].1 };
+    let res = crate::evidence::guarded(|| {
+        let (_old, map) = dom.into_raw();
+        WeakDom::from_raw(chosen, map)
+    });
+    let mut dom = match res {
+        Ok(d) => d,
+        Err((site, msg)) => return vec![(format!("panicked at {}: {}", site, msg), "C09")],
+    };
+    if dom.root_ref() != chosen {
+        problems.push(("root_ref() is not the referent from_raw was given".into(), "C10"));
+    }
+    let after = snapshot(&dom, &known);
+    if after.len() != n_before {
+        problems.push((format!("{} of {} instances can be looked up after from_raw", after.len(), n_before), "C09"));
+    }
+    for (name, row) in &before {
+        match after.get(name) {
+            Some(r2) if r2 == row => {}
+            Some(r2) if r2.0 != row.0 || r2.1 != row.1 => problems.push((format!("from_raw changed the parent or child list of {}: parent {} -> {}, children {:?} -> {:?} (whoever listed it, or was listed by it, was not changed with it)", name, row.0, r2.0, row.1, r2.1), "C09")),
+            _ => problems.push((format!("from_raw changed the properties of {}", name), "C10")),
+        }
+    }
+    if !problems.is_empty() {
+        return problems;
+    }
+    let res = crate::evidence::guarded(|| match follow {
+        1 => Some(dom.insert(chosen, InstanceBuilder::new("Folder").with_name("late"))),
+        2 => Some(dom.clone_within(chosen)),
+        _ => None,
+    });
+    let made = match res {
+        Ok(m) => m,
+        Err((site, msg)) => return vec![(format!("after from_raw, panicked at {}: {}", site, msg), "C09")],
+    };
+    let mut expect = before.clone();
+    if follow == 1 {
+        let key = known.iter().find(|(_, r)| *r == chosen).map(|(n, _)| n.clone()).unwrap_or_default();
+        if let Some(row) = expect.get_mut(&key) {
+            row.1.push("late".to_owned());
+        }
+        match made.and_then(|m| dom.get_by_ref(m)) {
+            Some(i) if i.parent() == chosen && i.children().is_empty() && i.name == "late" => {}
+            _ => problems.push(("the instance inserted under the new root is not there as built".into(), "C10")),
+        }
+    }
+    if follow == 2 {
+        match made.and_then(|m| dom.get_by_ref(m)) {
+            Some(i) if i.parent().is_none() && Some(&i.name) == known.iter().find(|(_, r)| *r == chosen).map(|(n, _)| n) => {}
+            _ => problems.push(("the clone of the new root is not a parentless copy of it".into(), "C11")),
+        }
+    }
+    let after2 = snapshot(&dom, &known);
+    if after2 != expect {
+        let who: Vec<&String> = expect.iter().filter(|(k, v)| after2.get(*k) != Some(v)).map(|(k, _)| k).collect();
+        problems.push((format!("after {} on a DOM made by from_raw, {:?} differ(s) from what the operation documents", if follow == 1 { "insert" } else { "clone_within" }, who), "C10"));
+    }
+    problems
+}
+
+pub fn from_raw_all() -> (Vec<Problem>, u64) {
+    let mut out: Vec<Problem> = Vec::new();
+    let mut count = 0u64;
+    for n in 1..=4usize {
+        for parents in crate::plan::forests(n) {
+            for new_root in 0..=n {
+                for follow in 0..3u8 {
+                    count += 1;
+                    for (what, prop) in from_raw_case(&parents, new_root, follow) {
+                        out.push((
+                            format!("domprobe|from_raw-other-root|{}|{}", ["construct", "then-insert", "then-clone_within"][follow as usize], prop),
+                            format!("from_raw(into_raw()) of shape {:?} with {} as the root: {}", parents, if new_root >= n { "the old root".to_owned() } else { format!("n{}", new_root) }, what),
+                            serde_json::json!({"domprobe": {"kind": "from-raw", "parents": parents, "new_root": new_root, "follow": follow}}),
+                            prop,
+                        ));
+                    }
+                }
+            }
+        }
+    }
+    out.sort_by(|a, b| a.0.cmp(&b.0));
+    out.dedup_by(|a, b| a.0 == b.0);
+    (out, count)
 }
 
 // ---------------------------------------------------------------------------
